@@ -268,6 +268,9 @@ func init() {
 				var obs []uint64
 				for _, t := range in.Ts {
 					rv := uint64(fc.SkipTo(be.EntryID(t)))
+					if len(in.Ts)%2 == 0 { // on every other case: the (read-only) dump helpers are called between the steps
+						_ = be.FieldCursors{fc}.DumpJustCursors()
+					}
 					cur := uint64(fc.GetCurEntryID())
 					if cur != prev {
 						res.NonTrivial = nonEmpty
@@ -293,6 +296,8 @@ func init() {
 				}
 				// the same set sorted through the sort.Interface methods (Len / Less / Swap) must come out in the same
 				// order of current entries as through Sort()
+				_ = fcs.DumpJustCursors() // the dump helpers are read-only
+				_ = fcs.Dump()
 				viaIface := append(be.FieldCursors{}, fcs...)
 				sort.Sort(viaIface)
 				fcs.Sort()
